@@ -51,6 +51,19 @@ var sendNames = []string{"arp.Request", "arp.RequestTo", "arp.Probe", "arp.Annou
 	"SendLLMNRQuery", "SendSleepProxyResponse", "SendNBNSQuery", "SendNBNSNodeStatus", "SendSSDPSearch", "Ping", "Ping6",
 	"purge probes", "dhcp.StartHunt(force release)"}
 
+func samePrefixes(got []refdec.PrefixInfo, want []packet.PrefixInformation) bool {
+	if len(got) != len(want) {
+		return false
+	}
+	for i := range want {
+		a, ok := netip.AddrFromSlice(want[i].Prefix)
+		if !ok || got[i].Prefix != netip.PrefixFrom(a.Unmap(), int(want[i].PrefixLength)) {
+			return false
+		}
+	}
+	return true
+}
+
 func genSends(prop string, seed uint64, tier string) Scenario {
 	r := &rng{s: seed ^ 0x5e9d}
 	sc := Scenario{Prop: prop, Family: "sends", Seed: seed}
@@ -235,6 +248,9 @@ func runSends(e *exec) {
 			if o.N%2 == 1 {
 				pfx = append(pfx, packet.PrefixInformation{PrefixLength: 56, Prefix: net.ParseIP("fd00:2::")})
 			}
+			if o.N%3 == 2 {
+				pfx = append(pfx, packet.PrefixInformation{PrefixLength: 48, Prefix: net.ParseIP("2001:db8:77::")})
+			}
 			var rdnss *packet.RecursiveDNSServer
 			if o.S%2 == 1 {
 				rdnss = &packet.RecursiveDNSServer{Lifetime: 10 * time.Minute, Servers: []net.IP{net.ParseIP("2001:db8::53")}}
@@ -254,6 +270,8 @@ func runSends(e *exec) {
 						chk.bad("not-ra", "frame is not a router advertisement (icmp6 type %v)", icmpType(f))
 					case len(f.ND.Prefixes) != len(pfx):
 						chk.bad("ra-prefixes", "%d prefix options, want %d", len(f.ND.Prefixes), len(pfx))
+					case !samePrefixes(f.ND.Prefixes, pfx):
+						chk.bad("ra-prefix-values", "prefix options %v, want %v", f.ND.Prefixes, pfx)
 					case (rdnss != nil) != f.ND.HasRDNSS:
 						chk.bad("ra-rdnss", "rdnss option present=%v, want %v", f.ND.HasRDNSS, rdnss != nil)
 					}
@@ -289,7 +307,14 @@ func runSends(e *exec) {
 			if o.S%2 == 1 {
 				dst = packet.Addr{MAC: world.HW(mac(o.N)), IP: t}
 			}
-			err = w.S.ICMP6SendNeighbourSolicitation(srcLLA, dst, t)
+			src := srcLLA
+			switch o.I % 4 { // the caller chooses the source: link-local, global, or unspecified (a DAD probe)
+			case 2:
+				src = packet.Addr{MAC: ownHW, IP: netip.MustParseAddr("2001:db8::1:1")}
+			case 3:
+				src = packet.Addr{MAC: ownHW, IP: netip.IPv6Unspecified()}
+			}
+			err = w.S.ICMP6SendNeighbourSolicitation(src, dst, t)
 			expect = func(outs []world.Out) {
 				one(outs, func(f *refdec.Frame) {
 					switch {
@@ -299,8 +324,13 @@ func runSends(e *exec) {
 						chk.bad("ns-target", "target %s, want %s", f.ND.Target, t)
 					case f.ND.TargetLLA != nil:
 						chk.bad("ns-carries-target-lla-option", "neighbour solicitation carries a target link-layer address option (type 2); RFC 4861 section 4.3 allows only the source link-layer address option (type 1)")
-					case f.ND.SourceLLA == nil || *f.ND.SourceLLA != own:
+					case !src.IP.IsUnspecified() && (f.ND.SourceLLA == nil || *f.ND.SourceLLA != own):
 						chk.bad("ns-slla", "source link-layer option %v, want %s", f.ND.SourceLLA, own)
+					case f.IP6.Src != src.IP:
+						chk.bad("ns-source", "sent from %s, want the caller's source %s", f.IP6.Src, src.IP)
+					// (the hop limit of link-local NDP is checked by the reference decoder on every frame; an NS
+					// to a global address goes out with 64, which RFC 4861 also forbids but the statement
+					// does not cover: an observation, not a violation)
 					}
 				})
 			}
